@@ -466,11 +466,13 @@ theorem d3_only_in_the_vault_sweeps :
     (unwrapped.filter fun e => conditionalD3.contains (key e)).length ≤ 2 := by decide
 
 set_option maxRecDepth 200000 in
-/-- **Pins**: the twelve Begin/EndBlockers of the ten DeFi modules are all in the table, with at least the sixteen
-wrapper sites and two hundred unwrapped entries of the pinned tree, and some spot entries. (Lower bounds for the
-sizes that a repair of D3/D6 legitimately changes; the number of blockers is exact.) -/
+/-- **Pins**: exactly the twelve Begin/EndBlockers of the ten DeFi modules; sixteen wrapper sites (seventeen once the
+second-generation borrow loop has its own unit, i.e. D6 repaired); on the pinned tree 216 unwrapped + 206 wrapped
+entries — stated as lower bounds because a repair of D3/D6 legitimately moves about thirty entries from one side
+to the other — and spot entries, so that an extractor that returns little or nothing fails here. -/
 theorem table_pins :
-    blockers.length = 12 ∧ units.length ≥ 16 ∧ unwrapped.length ≥ 200 ∧ wrappedEntries.length ≥ 150 ∧
+    blockers.length = 12 ∧ (units.length = 16 ∨ units.length = 17) ∧ unwrapped.length ≥ 150 ∧ wrappedEntries.length ≥ 150 ∧
+    entries.length ≥ 380 ∧
     (blockers.map (·.name)) = ["liquidity.BeginBlocker", "liquidity.EndBlocker", "liquidation.BeginBlocker",
       "liquidationsV2.BeginBlocker", "auction.BeginBlocker", "auctionsV2.BeginBlocker", "rewards.BeginBlocker",
       "rewards.EndBlocker", "lend.BeginBlocker", "esm.BeginBlocker", "market.BeginBlocker", "bandoracle.BeginBlocker"] ∧
